@@ -26,7 +26,7 @@ func specs() map[string]*spec {
 	})
 	add(&spec{ID: "C08", Level: "exploration",
 		WLs: []wlSpec{{Name: "c08", TimeoutS: 600}, {Name: "c08tcp", TimeoutS: 600, Shards: 8}},
-		Rule: "writing: every length {0,4,..,520,1020,1024,4096,65536,2^20} in both modes, wire bytes vs reference framing; reading: EVERY composition of every short reference-framed stream (<=12 bytes quick, <=15 thorough) through go-dry's CancelableReader (the exact-count mechanism tcpConn uses), plus PRNG segmentations/1-byte-at-a-time/whole for sequences of 1-6 longer messages, then EOF; loopback TCP through transport.NewTransport with a peer writing PRNG segments (TCP_NODELAY, paced) of plain-envelope messages and 4-byte signed error codes, then orderly close; distinct = distinct (mode, shape, composition or segmentation class)",
+		Rule: "writing: every length {0,4,..,520,1020,1024,4096,65536,2^20} in both modes, wire bytes vs reference framing; reading: EVERY composition of every short reference-framed stream (<=12 bytes quick, <=15 thorough) through an exact-count reader (the contract the framing modes are written against; tcpConn's own implementation of it is exercised on the loopback path), plus PRNG segmentations/1-byte-at-a-time/whole for sequences of 1-6 longer messages, then EOF; loopback TCP through transport.NewTransport with a peer writing PRNG segments (TCP_NODELAY, paced) of plain-envelope messages and 4-byte signed error codes, then orderly close; distinct = distinct (mode, shape, composition or segmentation class)",
 		Assumptions: []string{"ref/mtp framing", "kernel loopback TCP; the actual split seen by the reader on the TCP path is decided by the kernel (deterministic path covers all compositions)"},
 	})
 	add(&spec{ID: "C12", Level: "exploration",
